@@ -15,7 +15,7 @@
    arithmetic and alias streams and compared with it and with itself; BigInt aliasing is register coincidence
    in C16's method-sequence theorem. *)
 From Coq Require Import ZArith Bool List.
-From Apd Require Import Generated.Consts Model.Base Model.NumDigits Model.Decimal Model.Context Imp.Mem Imp.Ops Imp.AliasProofs Imp.CtxOps Imp.CtxProofs.
+From Apd Require Import Generated.Consts Model.Base Model.NumDigits Model.Decimal Model.Context Imp.Mem Imp.Ops Imp.AliasProofs Imp.CtxOps Imp.CtxProofs Imp.CtxMulProofs Proofs.Core Proofs.SetExponent.
 Open Scope Z_scope.
 
 Theorem C05_set d x m : wf_mem m -> mem_eq (snd (run (set_imp d x) m)) (put m d (set_pure (get m x))).
@@ -59,6 +59,17 @@ Theorem C05_context_round est c d x m : wf_mem m ->
   (forall r0, r = Ok r0 -> mem_eq (snd (run (ctx_round_imp est c d x) m)) (mem_after m d r)).
 Proof. exact (ctx_round_imp_pure est c d x m). Qed.
 Print Assumptions C05_context_round.
+(* Context.Mul: d.Coeff, d.Negative, d.Form are written BEFORE the operand exponents are read and before
+   setExponent rounds a subnormal product with d.Negative; inside the package's exponent limits the call is the
+   model's ctx_mul of the initial operand values under every pointer assignment *)
+Theorem C05_context_mul est : est_in_range est -> forall c d x y m, wf_mem m ->
+  0 <= m (x, FCoeff) -> 0 <= m (y, FCoeff) -> in_lim (m (x, FExp)) -> in_lim (m (y, FExp)) ->
+  in_lim (m (x, FExp) + m (y, FExp) + ndigits (m (x, FCoeff) * m (y, FCoeff)) - 1) ->
+  let r := ctx_mul est c (get m x) (get m y) in
+  fst (run (mul_imp est c d x y) m) = outcome_of r /\
+  (forall r0, r = Ok r0 -> mem_eq (snd (run (mul_imp est c d x y) m)) (mem_after m d r)).
+Proof. exact (mul_imp_pure est). Qed.
+Print Assumptions C05_context_mul.
 (* setAsNaN, used by every Context method: d may be the (signaling) NaN operand itself *)
 Theorem C05_set_as_nan c d x y m : wf_mem m ->
   should_set_as_nan (get m x) (option_map (get m) y) = true ->
